@@ -621,7 +621,7 @@ fn main() {
     }
 
     let ctx = Ctx::from_env("C11");
-    ctx.rule("universes: 'strainsvec/*' = BFS over all operation histories (push of 10 values incl. subnormal, +-0, -1, +-NaN, inf; len; iter with ExactSizeIterator::len after every step; sum; clone; retain_non_zero; sort_desc; retain_non_zero_and_sort; sorted_non_zero_iter_mut + scale by 3/4 (values stay positive: the list's invariant); into_vec; transmute_into_vec — preconditions of the unsafe / debug-asserted methods respected) to depth 6 (quick) / 7 from every 2-push prefix, against a plain Vec<f64>, key = (reference content, may-contain-zero flag); executed by this release build and by workers built with debug assertions, for the default and the raw_strains list; 'sorts' = every key array of length <= 7 over 3 keys for TandemSorter (stable, tandem, reuse), the C# introsort port, the legacy hit-object sort and LimitedQueue; 'miri' = the same StrainsVec BFS at depth 3/4, every move/box/vec/swap/drop history of gradual calculators (depth 2 on osu!+taiko / 3 on all modes), the decoder on every malformed slider path of <= 3 segments followed by a well-formed slider, and the sorts, all interpreted by Miri (cargo +nightly miri run): any undefined behaviour fails the check; non-trivial = every history");
+    ctx.rule("universes: 'strainsvec/*' = BFS over all operation histories (push of 10 values incl. subnormal, +-0, -1, +-NaN, inf; len; iter with ExactSizeIterator::len after every step; sum; clone; retain_non_zero; sort_desc; retain_non_zero_and_sort; sorted_non_zero_iter_mut + scale by 3/4 (values stay positive: the list's invariant); into_vec; transmute_into_vec — preconditions of the unsafe / debug-asserted methods respected) to depth 6 (quick) / 7 from every 2-push prefix, against a plain Vec<f64>, key = (reference content, may-contain-zero flag); executed by this release build and by workers built with debug assertions, for the default and the raw_strains list; 'sorts' = every key array of length <= 7 over 3 keys for TandemSorter (stable, tandem, reuse), the C# introsort port, the legacy hit-object sort and LimitedQueue; 'miri' = the same StrainsVec BFS at depth 3/4, every move/box/vec/swap/drop history of gradual calculators (depth 2 on osu!+taiko / 3 on all modes; natively to depth 4 in workers built with debug assertions, where an out-of-bounds get_unchecked aborts), the same for calculators built from a Difficulty that carries passed_objects(0|1) (next / nth(1) histories), the decoder on every malformed slider path of <= 3 segments followed by a well-formed slider, and the sorts, all interpreted by Miri (cargo +nightly miri run): any undefined behaviour fails the check; non-trivial = every history");
     ctx.assume("Miri is the monitor for invalid accesses; the nightly toolchain with miri is available offline");
 
     let root = PathBuf::from(std::env::var("VERIF_ROOT").unwrap_or_else(|_| "/verif".into()));
